@@ -188,6 +188,45 @@ func (a *efAnalysis) originOf(v ssa.Value) origin {
 	return o
 }
 
+// helperParamOrigin: the join of the origins of the arguments at every call site, for a parameter of an
+// unexported, non-method repo function whose every use is a direct call
+func (a *efAnalysis) helperParamOrigin(x *ssa.Parameter) (origin, bool) {
+	fn := x.Parent()
+	if fn == nil || fn.Signature.Recv() != nil || fn.Object() == nil || fn.Object().Exported() || !a.p.IsRepoFn(fn) || fn.Parent() != nil {
+		return 0, false
+	}
+	if refs := fn.Referrers(); refs != nil {
+		for _, ref := range *refs {
+			c, ok := ref.(ssa.CallInstruction)
+			if !ok || c.Common().Value != ssa.Value(fn) {
+				return 0, false // used as a value somewhere
+			}
+		}
+	}
+	idx := -1
+	for i, q := range fn.Params {
+		if q == x {
+			idx = i
+		}
+	}
+	n := a.p.CG.Nodes[fn]
+	if idx < 0 || n == nil || len(n.In) == 0 {
+		return 0, false
+	}
+	var o origin
+	for _, ce := range n.In {
+		if ce.Site == nil || ce.Site.Common().StaticCallee() != fn || idx >= len(ce.Site.Common().Args) {
+			return 0, false
+		}
+		ao := a.originOf(ce.Site.Common().Args[idx])
+		if ao == 0 {
+			return 0, false
+		}
+		o |= ao
+	}
+	return o, true
+}
+
 func (a *efAnalysis) origin1(v ssa.Value) origin {
 	switch x := v.(type) {
 	case *ssa.Alloc, *ssa.MakeSlice, *ssa.MakeMap, *ssa.MakeChan, *ssa.Const, *ssa.Function, *ssa.Builtin:
@@ -199,6 +238,11 @@ func (a *efAnalysis) origin1(v ssa.Value) origin {
 	case *ssa.Parameter:
 		if !refLike(x.Type()) {
 			return oFresh
+		}
+		// an unexported helper that is only ever called directly: its parameter is whatever its callers
+		// pass (a helper that appends to a list its caller has just created writes into fresh memory)
+		if o, ok := a.helperParamOrigin(x); ok {
+			return o
 		}
 		return oParam
 	case *ssa.FreeVar:
